@@ -1,88 +1,117 @@
 ----------------------------- MODULE LexerInit -----------------------------
 (* Creation and initialisation of the process-wide default lexer             *)
-(* (sqlparse/lexer.py:27-28, 48-92), threads x steps:                        *)
+(* (sqlparse/lexer.py:27-28, 48-95), threads x steps:                        *)
 (*                                                                           *)
 (*   def get_default_instance(cls):                                          *)
 (*       with cls._lock:                                     -- Acquire      *)
 (*           if cls._default_instance is None:               -- Test         *)
-(*               cls._default_instance = cls()               -- Create (published at once,    *)
-(*                                                              the object has no attributes) *)
-(*               cls._default_instance.default_initialization()                               *)
+(*               instance = cls()                            -- Create (private object, no attributes) *)
+(*               instance.default_initialization()                                            *)
 (*                   clear():  _SQL_REGEX = [] ; _keywords = []   -- ClearRegex, ClearKw      *)
 (*                   set_SQL_REGEX(...)                           -- SetRegex                 *)
 (*                   add_keywords(...) x NDicts                   -- AddKw                    *)
+(*               cls._default_instance = instance            -- Publish                       *)
 (*       return cls._default_instance                        -- Release, Return               *)
 (*   ... get_tokens / is_keyword read _SQL_REGEX, _keywords  -- Use                           *)
 (*                                                                           *)
-(* UseLock = FALSE is the lock-free skeleton (the pre-0.5.0 race); it must   *)
-(* violate UseSeesComplete (vacuity guard) and supplies the superset of      *)
-(* interleavings the schedule replay draws from.                             *)
+(* Any step of the initialisation may FAIL (InitFail: RecursionError when    *)
+(* the first call of a process is made on a nearly exhausted stack,          *)
+(* MemoryError, ...): the `with` releases the lock and the call raises.      *)
+(*                                                                           *)
+(* Objects are named after the thread that created them.  Mutant switches    *)
+(* (vacuity guards, and the two defects this code had):                      *)
+(*   UseLock = FALSE       the lock-free skeleton (the pre-0.5.0 race)       *)
+(*   PublishEarly = TRUE   `cls._default_instance = cls()` BEFORE the        *)
+(*                         initialisation (the code before repair d. in      *)
+(*                         DESIGN 0.4): a failed initialisation leaves a     *)
+(*                         half-built singleton behind for every later call  *)
 (***************************************************************************)
 EXTENDS Naturals, FiniteSets, Sequences
 
-CONSTANTS Threads, NDicts, UseLock
+CONSTANTS Threads, NDicts, UseLock, PublishEarly,
+          MayFail        \* TRUE: InitFail is enabled
 
-VARIABLES pc,        \* pc[t] in {"start","test","create","clearR","clearK","setR","addK","release","return","use","done"}
+VARIABLES pc,        \* pc[t] in {"start","test","create","clearR","clearK","setR","addK","publish","release","return","use","done","failed"}
           owner,     \* lock owner or "none"
-          inst,      \* "none" | "obj"
-          hasRegex,  \* attribute _SQL_REGEX exists
-          hasKw,     \* attribute _keywords exists
-          regexSet,  \* _SQL_REGEX is the compiled rule list
-          nDicts,    \* len(_keywords)
+          inst,      \* "none" | the object (= creating thread) the class attribute points to
+          attrs,     \* attrs[o] = [hasRegex, hasKw, regexSet, nDicts] of object o
           mine,      \* mine[t]: what get_default_instance returned to t
-          creators   \* set of threads that executed Create
-vars == <<pc, owner, inst, hasRegex, hasKw, regexSet, nDicts, mine, creators>>
+          creators,  \* set of threads that executed Create
+          failing    \* failing[t]: t's initialisation raised, the exception is propagating
+vars == <<pc, owner, inst, attrs, mine, creators, failing>>
+
+Blank == [hasRegex |-> FALSE, hasKw |-> FALSE, regexSet |-> FALSE, nDicts |-> 0]
 
 Init == /\ pc = [t \in Threads |-> "start"] /\ owner = "none" /\ inst = "none"
-        /\ hasRegex = FALSE /\ hasKw = FALSE /\ regexSet = FALSE /\ nDicts = 0
-        /\ mine = [t \in Threads |-> "none"] /\ creators = {}
+        /\ attrs = [t \in Threads |-> Blank]
+        /\ mine = [t \in Threads |-> "none"] /\ creators = {} /\ failing = [t \in Threads |-> FALSE]
 
 Goto(t, l) == pc' = [pc EXCEPT ![t] = l]
 Holds(t) == ~UseLock \/ owner = t
+Set(t, f, v) == attrs' = [attrs EXCEPT ![t][f] = v]
 
 Acquire(t) == /\ pc[t] = "start" /\ (~UseLock \/ owner = "none")
               /\ owner' = IF UseLock THEN t ELSE owner
-              /\ Goto(t, "test") /\ UNCHANGED <<inst, hasRegex, hasKw, regexSet, nDicts, mine, creators>>
+              /\ Goto(t, "test") /\ UNCHANGED <<inst, attrs, mine, creators, failing>>
 Test(t) == /\ pc[t] = "test" /\ Holds(t)
            /\ Goto(t, IF inst = "none" THEN "create" ELSE "release")
-           /\ UNCHANGED <<owner, inst, hasRegex, hasKw, regexSet, nDicts, mine, creators>>
+           /\ UNCHANGED <<owner, inst, attrs, mine, creators, failing>>
 Create(t) == /\ pc[t] = "create" /\ Holds(t)
-             /\ inst' = "obj" /\ hasRegex' = FALSE /\ hasKw' = FALSE /\ regexSet' = FALSE /\ nDicts' = 0
+             /\ attrs' = [attrs EXCEPT ![t] = Blank]
+             /\ inst' = IF PublishEarly THEN t ELSE inst
              /\ creators' = creators \cup {t}
-             /\ Goto(t, "clearR") /\ UNCHANGED <<owner, mine>>
+             /\ Goto(t, "clearR") /\ UNCHANGED <<owner, mine, failing>>
 ClearR(t) == /\ pc[t] = "clearR" /\ Holds(t)
-             /\ hasRegex' = TRUE /\ regexSet' = FALSE
-             /\ Goto(t, "clearK") /\ UNCHANGED <<owner, inst, hasKw, nDicts, mine, creators>>
+             /\ attrs' = [attrs EXCEPT ![t].hasRegex = TRUE, ![t].regexSet = FALSE]
+             /\ Goto(t, "clearK") /\ UNCHANGED <<owner, inst, mine, creators, failing>>
 ClearK(t) == /\ pc[t] = "clearK" /\ Holds(t)
-             /\ hasKw' = TRUE /\ nDicts' = 0
-             /\ Goto(t, "setR") /\ UNCHANGED <<owner, inst, hasRegex, regexSet, mine, creators>>
+             /\ attrs' = [attrs EXCEPT ![t].hasKw = TRUE, ![t].nDicts = 0]
+             /\ Goto(t, "setR") /\ UNCHANGED <<owner, inst, mine, creators, failing>>
 SetR(t) == /\ pc[t] = "setR" /\ Holds(t)
-           /\ regexSet' = TRUE /\ hasRegex' = TRUE
-           /\ Goto(t, "addK") /\ UNCHANGED <<owner, inst, hasKw, nDicts, mine, creators>>
-AddK(t) == /\ pc[t] = "addK" /\ Holds(t) /\ nDicts < NDicts
-           /\ nDicts' = nDicts + 1
-           /\ Goto(t, IF nDicts + 1 = NDicts THEN "release" ELSE "addK")
-           /\ UNCHANGED <<owner, inst, hasRegex, hasKw, regexSet, mine, creators>>
+           /\ attrs' = [attrs EXCEPT ![t].regexSet = TRUE, ![t].hasRegex = TRUE]
+           /\ Goto(t, "addK") /\ UNCHANGED <<owner, inst, mine, creators, failing>>
+AddK(t) == /\ pc[t] = "addK" /\ Holds(t) /\ attrs[t].nDicts < NDicts
+           /\ attrs' = [attrs EXCEPT ![t].nDicts = @ + 1]
+           /\ Goto(t, IF attrs[t].nDicts + 1 = NDicts THEN (IF PublishEarly THEN "release" ELSE "publish") ELSE "addK")
+           /\ UNCHANGED <<owner, inst, mine, creators, failing>>
+Publish(t) == /\ pc[t] = "publish" /\ Holds(t)
+              /\ inst' = t
+              /\ Goto(t, "release") /\ UNCHANGED <<owner, attrs, mine, creators, failing>>
+\* an exception inside the initialisation: control leaves the `with` block (lock released), nothing else happens
+InitFail(t) == /\ MayFail /\ pc[t] \in {"clearR", "clearK", "setR", "addK"} /\ Holds(t)
+               /\ failing' = [failing EXCEPT ![t] = TRUE]
+               /\ Goto(t, "release") /\ UNCHANGED <<owner, inst, attrs, mine, creators>>
 Release(t) == /\ pc[t] = "release" /\ Holds(t)
               /\ owner' = IF UseLock THEN "none" ELSE owner
-              /\ Goto(t, "return") /\ UNCHANGED <<inst, hasRegex, hasKw, regexSet, nDicts, mine, creators>>
+              /\ Goto(t, IF failing[t] THEN "failed" ELSE "return")
+              /\ UNCHANGED <<inst, attrs, mine, creators, failing>>
 Return(t) == /\ pc[t] = "return"
              /\ mine' = [mine EXCEPT ![t] = inst]
-             /\ Goto(t, "use") /\ UNCHANGED <<owner, inst, hasRegex, hasKw, regexSet, nDicts, creators>>
+             /\ Goto(t, "use") /\ UNCHANGED <<owner, inst, attrs, creators, failing>>
 Use(t) == /\ pc[t] = "use"
-          /\ Goto(t, "done") /\ UNCHANGED <<owner, inst, hasRegex, hasKw, regexSet, nDicts, mine, creators>>
+          /\ Goto(t, "done") /\ UNCHANGED <<owner, inst, attrs, mine, creators, failing>>
+\* the application catches the error of the failed call and calls the library again
+Retry(t) == /\ pc[t] = "failed"
+            /\ failing' = [failing EXCEPT ![t] = FALSE]
+            /\ Goto(t, "start") /\ UNCHANGED <<owner, inst, attrs, mine, creators>>
 
-Step(t) == Acquire(t) \/ Test(t) \/ Create(t) \/ ClearR(t) \/ ClearK(t) \/ SetR(t) \/ AddK(t)
-           \/ Release(t) \/ Return(t) \/ Use(t)
+Step(t) == Acquire(t) \/ Test(t) \/ Create(t) \/ ClearR(t) \/ ClearK(t) \/ SetR(t) \/ AddK(t) \/ Publish(t)
+           \/ InitFail(t) \/ Release(t) \/ Return(t) \/ Use(t) \/ Retry(t)
 Next == \E t \in Threads : Step(t)
 Spec == Init /\ [][Next]_vars
-FairSpec == Spec /\ \A t \in Threads : WF_vars(Step(t))
+FairSpec == Spec /\ \A t \in Threads : WF_vars(Acquire(t) \/ Test(t) \/ Create(t) \/ ClearR(t) \/ ClearK(t) \/ SetR(t) \/ AddK(t)
+                                               \/ Publish(t) \/ Release(t) \/ Return(t) \/ Use(t))
 
-Complete == inst = "obj" /\ hasRegex /\ hasKw /\ regexSet /\ nDicts = NDicts
+CompleteObj(o) == o # "none" /\ attrs[o].hasRegex /\ attrs[o].hasKw /\ attrs[o].regexSet /\ attrs[o].nDicts = NDicts
 
 \* C20: every thread that got an instance back works with a completely initialised lexer
-UseSeesComplete == \A t \in Threads : pc[t] = "use" => (mine[t] = "obj" /\ Complete)
-AtMostOneCreate == Cardinality(creators) <= 1
-MutualExclusion == UseLock => Cardinality({ t \in Threads : pc[t] \in {"test", "create", "clearR", "clearK", "setR", "addK", "release"} }) <= 1
+UseSeesComplete == \A t \in Threads : pc[t] = "use" => CompleteObj(mine[t])
+\* C15/C20: whenever no thread is inside the critical section, a published singleton is complete - also after a failed
+\* initialisation ("a later call on ordinary input still works")
+PublishedIsComplete == (inst # "none" /\ \A t \in Threads : pc[t] \notin {"test", "create", "clearR", "clearK", "setR", "addK", "publish", "release"})
+                          => CompleteObj(inst)
+\* without failures exactly one object is ever built
+AtMostOneCreate == ~MayFail => Cardinality(creators) <= 1
+MutualExclusion == UseLock => Cardinality({ t \in Threads : pc[t] \in {"test", "create", "clearR", "clearK", "setR", "addK", "publish", "release"} }) <= 1
 AllFinish == <>(\A t \in Threads : pc[t] = "done")
 =============================================================================
